@@ -62,3 +62,12 @@ Proof.
     { apply N.ltb_ge. destruct k; cbn [width] in Hlen; lia. }
     rewrite Hn, (plain_token_not_numeral k c rest n Hnum). reflexivity.
 Qed.
+
+Theorem lookup_str_plain_spec {X} (k : kind) (l : list (option X)) (idof : X -> option nat) (m : idmap) (s : list N) :
+  exact idof l m ->
+  (match lookup_str_plain k l m s with Some h => [h] | None => [] end) = spec_lookup_plain k l idof s.
+Proof.
+  intros E. unfold lookup_str_plain, spec_lookup_plain. destruct (plain_token k s) as [tok|]; [|reflexivity].
+  rewrite <- (exact_resolve idof l m (N.to_nat tok) E). unfold m_resolve.
+  destruct (resolve_ref l m (ById (N.to_nat tok))); reflexivity.
+Qed.
